@@ -522,6 +522,10 @@ def run(tier):
                       "buffer_alloc.c compiled into the drivers at a scaled granularity is the allocator that ships",
                       "no access outside a buffer is observed (ASan) on every executed call, not proved",
                       "the exhaustive model is bounded (see MC cfg); beyond it coverage is by the seeded histories"]
+    # extension X23: mapped buffers, bitmaps, array holders (checks/x23_mapbuf.py, docs/X23_mapbuf.md)
+    import x23_mapbuf
+    if x23_mapbuf.enabled():
+        x23_mapbuf.run_part(ck, tier)
     return ck.finish()
 
 
@@ -594,6 +598,9 @@ def trace_class(st, prev):
 def replay(path):
     d = json.load(open(path))
     det = d["detail"]
+    if det.get("part") == "x23_mapbuf":
+        import x23_mapbuf
+        return x23_mapbuf.replay(det, path)
     beh = det.get("behaviour")
     if not beh:
         print(json.dumps(det, indent=1)[:4000])
